@@ -36,7 +36,7 @@ type Input struct {
 	Mode      string   `json:"mode"`    // remote | direct
 	Threads   int      `json:"threads"` // UpstreamThreads (remote)
 	Burst     int      `json:"burst"`
-	Script    []string `json:"script"` // behaviour of the server per request, cycled: ok 500 hang slow close panic stall
+	Script    []string `json:"script"` // behaviour of the server per request, cycled: ok 500 hang slow close panic stall cutbody slowbody
 	Refuse    bool     `json:"refuse"` // address of a closed listener
 	Token     string   `json:"token"`
 	Path      string   `json:"path"`       // path of the upstream address
@@ -253,6 +253,27 @@ func (s *server) handle(w http.ResponseWriter, r *http.Request) {
 			}
 			time.Sleep(2 * time.Millisecond)
 		}
+	case "cutbody": // 200 and headers, then the connection dies in the middle of the body
+		atomic.AddInt64(&s.bad, 1)
+		w.Header().Set("Content-Length", "100")
+		w.WriteHeader(200)
+		w.Write([]byte("0123456789"))
+		if f, ok := w.(http.Flusher); ok {
+			f.Flush()
+		}
+		// returning with fewer bytes written than declared makes net/http abort the connection
+	case "slowbody": // 200 and headers in time, the body only after the client's timeout has expired
+		atomic.AddInt64(&s.bad, 1)
+		w.Header().Set("Content-Length", "5")
+		w.WriteHeader(200)
+		if f, ok := w.(http.Flusher); ok {
+			f.Flush()
+		}
+		select {
+		case <-r.Context().Done():
+		case <-time.After(2 * time.Second):
+		}
+		w.Write([]byte("late!"))
 	case "close":
 		atomic.AddInt64(&s.bad, 1)
 		if hj, ok := w.(http.Hijacker); ok {
@@ -718,17 +739,19 @@ func gen(r *rand.Rand, idx int, tier string) Input {
 			in.Refuse = true
 			in.Script = []string{"ok"}
 		case 5: // failing server
-			in.Script = lib.Pick(r, [][]string{{"500"}, {"close"}, {"panic"}, {"500", "ok"}, {"close", "ok", "500"}})
+			in.Script = lib.Pick(r, [][]string{{"500"}, {"close"}, {"panic"}, {"500", "ok"}, {"close", "ok", "500"}, {"cutbody"}, {"ok", "cutbody"}})
 		case 6: // client-side timeout against a stalling server (few stalls: each costs the timeout)
-			in.Script = []string{"stall", "ok", "ok", "ok", "500", "ok", "ok", "ok", "ok", "ok", "ok", "ok"}
-			in.TimeoutMs = lib.Range(r, 20, 40)
-			if in.Burst > 60 {
-				in.Burst = lib.Range(r, 1, 60)
+			in.Script = []string{"stall", "ok", "ok", "slowbody", "500", "ok", "ok", "ok", "ok", "ok", "ok", "ok"}
+			// generous timeout: on a loaded machine a healthy exchange must never hit it (each stall / slow body costs it once)
+			in.TimeoutMs = lib.Range(r, 150, 250)
+			in.Procs = lib.Pick(r, []int{4, 16})
+			if in.Burst > 36 {
+				in.Burst = lib.Range(r, 1, 36)
 			}
 		default: // mixed
 			n := lib.Range(r, 2, 6)
 			for i := 0; i < n; i++ {
-				in.Script = append(in.Script, lib.Pick(r, []string{"ok", "ok", "500", "slow", "close", "panic"}))
+				in.Script = append(in.Script, lib.Pick(r, []string{"ok", "ok", "500", "slow", "close", "panic", "cutbody"}))
 			}
 		}
 	}
@@ -761,5 +784,5 @@ func gen(r *rand.Rand, idx int, tier string) Input {
 }
 
 func main() {
-	lib.Main(lib.Harness[Input]{Prop: "C20", Quick: 200, Thorough: 2400, Gen: gen, Run: run})
+	lib.Main(lib.Harness[Input]{Prop: "C20", Quick: 230, Thorough: 2400, Gen: gen, Run: run})
 }
